@@ -6,7 +6,7 @@ EXTENDS JetProg
 CONSTANTS Depth
 
 Classes == {"identifier", "field", "unexported", "method", "nilderef", "mapfield-ok", "index-range", "index-len", "index-empty", "index-neg", "index-str", "index-strlen", "index-kind", "index-nil",
-            "slice-bound", "slice-kind", "operand-mul", "operand-add", "operand-neg", "operand-cmp", "calltarget", "calltarget-nil",
+            "slice-bound", "slice-kind", "operand-mul", "operand-add", "operand-neg", "operand-cmp", "calltarget", "calltarget-nil", "calltarget-nil-noargs", "range-invalid", "range-nilliteral",
             "argcount", "argcount-jetfunc", "argtype", "arg-invalid", "underscore", "underscore-jetfunc", "underscore-variadic", "argcount-variadic", "func",
             "len-kind", "ints-range", "pipe-nonfunc", "argcount-piped-jetfunc", "argcount-piped"}
 Positions == {"print", "let", "set", "ifcond", "iflet", "rangecoll", "yieldarg", "yieldctx", "ycontentctx", "includectx", "return", "execctx", "yieldnoval", "yieldnoval0"}
@@ -55,5 +55,7 @@ cParams == {p \in PathsUpTo(PosKinds, Depth) \X Classes \X Positions \X Places \
               /\ (p[5] = 1 => p[3] = "print")
               /\ (p[3] \in {"yieldnoval", "yieldnoval0"} => p[2] = "identifier")
               /\ (p[2] \in {"pipe-nonfunc", "safewriter-notlast", "argcount-piped-jetfunc", "argcount-piped"} => p[3] = "print")
+              /\ (p[2] \in {"range-invalid", "range-nilliteral"} => p[3] = "rangecoll")   \* nil is only an error as a range subject
+              /\ (p[2] = "calltarget-nil-noargs" => p[3] \in {"print", "let", "ifcond", "rangecoll"})
               /\ (p[4] = "layout" => p[3] \in {"print", "let", "yieldarg"})}
 =============================================================================
